@@ -69,6 +69,7 @@ def gateOf (kind : String) : Option (Option Gate) :=
   | "slice" => some (some F.sliceOwned)
   | "sliceref" => some (some F.sliceRefOwned)
   | "registry" => some none
+  | "erased" => some none
   | "struct" => some (some F.structGate)
   | _ => none
 
@@ -164,13 +165,15 @@ def stepR (r : Router.Router) (ws : List String) : Router.Router × String :=
         if blocking = "1" && (natOf nmw = 0 || Gen.handlerFacts.pipelineExecForwards) then "offreader" else "inline"
       let cls :=
         match g with
-        | none => "-"
+        | none =>
+          -- a custom `HandlerErased` (what `with_erased_handler` takes): answers, or returns `Err(RepeError::…)`
+          if kind = "erased" then (if isPanic cb then "PANIC" else if cres = "ok" then "ok" else "fail") else "-"
         | some gate =>
           -- a struct mount first checks that the path is below its root ("/t" in the harness)
           if kind = "struct" && (relativePointer (parentOf ((strOfHex tpath).getD [])) ((strOfHex query).getD [])).isNone then "rej 6"
           -- … and reads (no decoding) when the body is empty
           else if kind = "struct" && Gen.handlerFacts.structEmptyBodyIsRead && _body = "-" then
-            (if isPanic cb then "PANIC" else if cres = "ok" then "ok" else s!"rej {SErr.execution.code}")
+            (if isPanic cb then "PANIC" else if cres = "ok" then "ok" else s!"rej {structErrorCodes.getD (natOf ccode % 7) 0}")
           else
           match gate.lookup (natOf bfmt) with
           | none => s!"rej {INVALID_BODY}"
@@ -178,7 +181,7 @@ def stepR (r : Router.Router) (ws : List String) : Router.Router × String :=
             if !hintFor hints.toList d then "fail"
             else if isPanic cb then "PANIC"
             else if cres = "ok" then "ok"
-            else if kind = "struct" then s!"rej {SErr.execution.code}"
+            else if kind = "struct" then s!"rej {structErrorCodes.getD (natOf ccode % 7) 0}"
             else if natOf ccode = 0 then "ok"   -- a closure error carrying `ErrorCode::Ok` is framed with ec = 0
             else s!"rej {natOf ccode}"
       -- how many of the `nmw` links are shown the caller's context (`Next::ctx()`)
